@@ -158,6 +158,8 @@ func checkC03(c *run.Ctx) {
 			c.Sample(map[string]any{"document": clip(rs[len(rs)-1].Text, 1500), "normal_form": clip(want.String(), 1500)})
 		}
 	})
+	// One odd element among good ones: a list-form plugins key with a null or wrongly typed entry in it.
+	c.Phase("odd-elements", func() { c03OddElements(c) })
 	// Scale: documents of hundreds to 150000 steps (beyond 1 MiB of text from 20000 steps on, about 10 MiB at the top
 	// of the thorough tier): nothing is dropped, duplicated or moved however long the document is.
 	c.Phase("scale", func() {
@@ -191,4 +193,59 @@ func checkC03(c *run.Ctx) {
 		nil,
 		[]string{"comparison: numbers by value, timestamps equal to their RFC 3339 string, omitempty container fields absent = null = empty, Go-map-backed levels unordered", "YAML leg skipped for data containing multi-line strings that begin with whitespace (yaml.v3 emitter defect, as in C02/C09)", "excluded input classes: non-finite floats (K3), the key `<<` (K4), falsy skip values (K1); when both command and commands are present, commands wins (model follows the code)"})
 	_ = fmt.Sprint
+}
+
+// c03OddElements: command steps (compact JSON) whose plugins list holds one null or wrongly typed entry among
+// good ones. Nothing may be lost: either the step is kept as written (an unknown step), or its plugins list
+// comes back with one entry per entry written.
+func c03OddElements(c *run.Ctx) {
+	odd := []string{`null`, `42`, `[]`, `true`, `["x#v1"]`}
+	good := []string{`{"docker#v1":{"image":"x"}}`, `"cache#v2"`, `{"ecr#v3":null}`, `{"secrets#v1":{"a":1,"b":[1,2]}}`}
+	n := c.N(400, 6000)
+	c.Parallel("odd", n, func(i int, r *rand.Rand) {
+		k := 1 + r.IntN(5)
+		at := r.IntN(k)
+		list := ""
+		for j := 0; j < k; j++ {
+			if j > 0 {
+				list += ","
+			}
+			if j == at {
+				list += odd[i%len(odd)]
+			} else {
+				list += good[r.IntN(len(good))]
+			}
+		}
+		step := `{"command":"echo hi","plugins":[` + list + `],"label":"l"}`
+		text := `{"steps":[` + step + `]}`
+		id := run.CaseID("odd", i)
+		p, perr := parseText(text)
+		c.Eval(1)
+		if perr != nil && !warning.Is(perr) {
+			c.Count("odd_element_documents_rejected", 1)
+			return
+		}
+		if p == nil || len(p.Steps) != 1 {
+			c.Violation(id, map[string]any{"what": "a document with one step did not yield one step", "document": text})
+			return
+		}
+		jb, err := safeJSONMarshal(p.Steps[0])
+		if err != nil {
+			c.Violation(id, map[string]any{"what": "step does not marshal: " + err.Error(), "document": text})
+			return
+		}
+		if string(jb) == step {
+			c.Count("odd_element_steps_kept_as_written", 1)
+			c.Feature("odd", i%len(odd), k, at)
+			return
+		}
+		var got struct {
+			Plugins []any `json:"plugins"`
+		}
+		if err := json.Unmarshal(jb, &got); err != nil || len(got.Plugins) != k {
+			c.Violation(id, map[string]any{"what": fmt.Sprintf("a plugins list of %d entries (entry %d is %s) came back with %d entries and not as written: data lost", k, at, odd[i%len(odd)], len(got.Plugins)), "document": text, "json": string(jb)})
+			return
+		}
+		c.Count("odd_element_steps_normalised_with_every_entry", 1)
+	})
 }
